@@ -54,44 +54,49 @@ Example C19_example_history :
 Proof. vm_compute. auto. Qed.
 
 (* ---------------- round 5: targets that yield nothing ----------------
-   Full statement ("a target ... is reported as a load error or analysed"):
-     forall c, target_config_valid c = false -> exists step, run_cli_targets c = Fatal step.
-   It holds when every argument yields a package with files. *)
-Theorem C19_cli_targets_partial : forall c, tc_all_targets_yield c = true ->
-  (target_config_valid c = false -> exists step, run_cli_targets c = Fatal step)
-  /\ (target_config_valid c = true -> run_cli_targets c = Ran).
-Proof. exact targets_partial. Qed.
-Print Assumptions C19_cli_targets_partial.
-(* An argument that yields nothing is ignored: the run goes on and, when nothing else was named, exits 0 (recorded finding). *)
-Theorem C19_cli_missing_target_refuted :
-  exists c, target_config_valid c = false /\ run_cli_targets c = Ran.
-Proof. exact missing_target_runs_refuted. Qed.
-Print Assumptions C19_cli_missing_target_refuted.
+   "a target ... is reported as a load error or analysed": an argument that yields no package with files ends the run
+   in "load program", whatever else was named. *)
+Theorem C19_cli_targets_invalid_fatal : forall c,
+  target_config_valid c = false -> exists step, run_cli_targets c = Fatal step.
+Proof. exact targets_invalid_fatal. Qed.
+Print Assumptions C19_cli_targets_invalid_fatal.
+Theorem C19_cli_targets_valid_runs : forall c, target_config_valid c = true -> run_cli_targets c = Ran.
+Proof. exact targets_valid_runs. Qed.
+Print Assumptions C19_cli_targets_valid_runs.
+Theorem C19_cli_missing_target_is_load_error : forall c,
+  args_parse_ok (tc_base c) = true -> load_ok (tc_base c) = true -> tc_all_targets_yield c = false ->
+  run_cli_targets c = Fatal "load program".
+Proof. exact missing_target_is_load_error. Qed.
+Print Assumptions C19_cli_missing_target_is_load_error.
+(* before the repair such an argument was ignored: the run went on and, when nothing else was named, exited 0 *)
+Theorem C19_cli_missing_target_prefix_refuted :
+  exists c, target_config_valid c = false /\ run_cli_targets_prefix c = Ran.
+Proof. exact missing_target_prefix_refuted. Qed.
+Print Assumptions C19_cli_missing_target_prefix_refuted.
 
 (* ---------------- round 5: the sub-command dispatcher is total and fails on everything it does not know ---------------- *)
 Theorem C19_dispatch_total : forall argv,
-  (exists a, (argv = "check" :: a \/ argv = "" :: a) /\ dispatch argv = DCheck a)
+  (exists a, argv = "check" :: a /\ dispatch argv = DCheck a)
   \/ (exists a, argv = "doc" :: a /\ dispatch argv = DDoc a)
   \/ (exists a, argv = "help" :: a /\ dispatch argv = DHelp)
   \/ (exists a, argv = "version" :: a /\ dispatch argv = DVersion)
-  \/ ((argv = [] \/ exists c r, argv = c :: r /\ c <> "" /\ ~ In c subcommands) /\ exists m, dispatch argv = DError m).
+  \/ ((argv = [] \/ exists c r, argv = c :: r /\ ~ In c subcommands) /\ exists m, dispatch argv = DError m).
 Proof. exact dispatch_cases. Qed.
 Print Assumptions C19_dispatch_total.
-(* Full statement: (argv = [] \/ exists c r, argv = c :: r /\ ~ In c subcommands) -> main_status known cs argv = 1.
-   The guard c <> "" is needed: the runner matches the empty word against the commands' empty aliases. *)
-Theorem C19_unknown_subcommand_fails_partial : forall known cs argv,
-  (argv = [] \/ exists c r, argv = c :: r /\ c <> "" /\ ~ In c subcommands) -> main_status known cs argv = 1%Z.
+Theorem C19_unknown_subcommand_fails : forall known cs argv,
+  (argv = [] \/ exists c r, argv = c :: r /\ ~ In c subcommands) -> main_status known cs argv = 1%Z.
 Proof. exact unknown_subcommand_fails. Qed.
-Print Assumptions C19_unknown_subcommand_fails_partial.
-Theorem C19_empty_subcommand_runs_check : forall known cs r, main_status known cs ("" :: r) = cs r.
-Proof. exact empty_subcommand_runs_check. Qed.
-Print Assumptions C19_empty_subcommand_runs_check.
-Theorem C19_unknown_subcommand_fails_refuted :
-  exists known cs argv, (exists c r, argv = c :: r /\ ~ In c subcommands) /\ main_status known cs argv = 0%Z.
-Proof. exact empty_subcommand_refuted. Qed.
-Print Assumptions C19_unknown_subcommand_fails_refuted.
+Print Assumptions C19_unknown_subcommand_fails.
+(* the runner alone (before run() refused the empty word) matched "" against the commands' empty aliases and ran check *)
+Theorem C19_empty_word_prefix_runs_check : forall known cs r, main_status_empty_word_prefix known cs ("" :: r) = cs r.
+Proof. exact empty_word_prefix_runs_check. Qed.
+Print Assumptions C19_empty_word_prefix_runs_check.
+Theorem C19_unknown_subcommand_fails_prefix_refuted :
+  exists known cs argv, (exists c r, argv = c :: r /\ ~ In c subcommands) /\ main_status_empty_word_prefix known cs argv = 0%Z.
+Proof. exact empty_word_prefix_refuted. Qed.
+Print Assumptions C19_unknown_subcommand_fails_prefix_refuted.
 Theorem C19_status_zero_known_subcommand : forall known cs argv,
-  main_status known cs argv = 0%Z -> exists c r, argv = c :: r /\ (c = "" \/ In c subcommands).
+  main_status known cs argv = 0%Z -> exists c r, argv = c :: r /\ In c subcommands.
 Proof. exact status_zero_known_subcommand. Qed.
 Print Assumptions C19_status_zero_known_subcommand.
 Theorem C19_doc_unknown_checker_fails : forall known cs n,
